@@ -138,3 +138,54 @@ Print Assumptions C01_all_rows_valid_shift.
 Print Assumptions C01_run_rows_valid.
 Print Assumptions C01_run_row_valid_sharp.
 Print Assumptions C01_run_files.
+
+(* ==================================================================================================================================
+   APPENDED: THE WHOLE PROGRAM (model/Program.v: program_files cl ref_rows qry_rows = the data lines of every XMAP file, from the rows of the two
+   CMAP files and the command line; proofs/ProgramProofs2.v).  Hypotheses on the inputs only: cmdline_ok cl (-su <= 0 < -ms) and cmap_ok for both
+   files (every selected labelled molecule has an end marker; no two label rows of a molecule at one position) — see props/C07.v.
+
+   record_valid cl rr qr refs q0s line :=
+     exists a, read_line (map xmap_of refs) (map xmap_of q0s) line = XOk a             (the project's XMAP reader, given the two CMAP files as read,
+                                                                                         returns normally on the data line)
+       /\ sel (cl_rids cl) (a_rid a) /\ sel (cl_qids cl) (a_qid a)                      (RefContigID / QryContigID are selected molecules ...)
+       /\ valid_row (number of label rows of molecule a_rid a in rr) 1 (number of label rows of molecule a_qid a in qr) (a_rev a) (sites_of a)
+                                                                                        (... and the listed pairs are a non-empty, strictly ascending on the
+                                                                                         reference, strictly monotone on the query in the direction of the
+                                                                                         orientation, matching of label numbers 1..n of THESE molecules)
+   Every data line of the additional files _1 / _2 of every mode, and every data line of every file in mode `separate`, is record_valid.
+   Every data line of the main file is record_valid (and its row a valid matching) OR, in the modes best / joined / all, is the line of a JOINED
+   row (AlignmentResultRow.resolve of two valid rows): excluded exactly as in C01_run_rows_valid (open findings F7/F10).
+   refs / q0s are what the reader returns for the two files (C17 says exactly what). *)
+From Coq Require Import String.
+Require Import Wiring Cmap Xmap Program CmapProofs RunRecordProofs2 ProgramProofs1 ProgramProofs2.
+Require ProgramExamples.
+
+Theorem C01_program_records_valid cl rr qr files : cmdline_ok cl -> cmap_ok (cl_rids cl) rr -> cmap_ok (cl_qids cl) qr ->
+  program_files cl rr qr = Ok files ->
+  exists refs q0s o,
+    cmap_read rr (cl_rids cl) = Ok refs /\ cmap_read qr (cl_qids cl) = Ok q0s /\ program_outputs cl rr qr = Ok o /\
+    (forall sfx lines, In (sfx, lines) files -> sfx <> ""%string \/ cl_mode cl = Separate -> Forall (record_valid cl rr qr refs q0s) lines) /\
+    (forall lines k line, In (""%string, lines) files -> nth_error lines k = Some line ->
+       exists w, nth_error (o_main o) k = Some w /\
+         ((row_matching refs q0s w /\ record_valid cl rr qr refs q0s line) \/ (cl_mode cl <> Separate /\ joined_row refs q0s w))).
+Proof. exact (fun H1 H2 H3 => program_records_valid cl rr qr H1 H2 H3 files). Qed.
+
+(* non-vacuity: the run of proofs/ProgramExamples.v (see C07_program_nonvacuous) in mode `all`: hypotheses hold; the reader, given the maps read
+   from the two files, reads every data line of _1 and _2 back, and the verified checker accepts each against the label counts of the FILES
+   (24 reference labels; 18 labels of molecule 7, 9 of molecule 3) *)
+Example C01_program_nonvacuous :
+  cmdline_ok (ProgramExamples.px_cl All_) /\ cmap_ok [] ProgramExamples.px_rr /\ cmap_ok [] ProgramExamples.px_qr /\
+  match cmap_read ProgramExamples.px_rr [], cmap_read ProgramExamples.px_qr [], program_files (ProgramExamples.px_cl All_) ProgramExamples.px_rr ProgramExamples.px_qr return Prop with
+  | Ok refs, Ok q0s, Ok files =>
+      map mid refs = [1] /\ map mid q0s = [3; 7] /\
+      map (fun f => map (fun line => match read_line (map xmap_of refs) (map xmap_of q0s) line with
+                                     | XOk a => Some (a_qid a, a_rid a, a_rev a,
+                                                      Checkers.valid_rowb (Z.of_nat (List.length (labels_of ProgramExamples.px_rr (a_rid a)))) 1
+                                                                          (Z.of_nat (List.length (labels_of ProgramExamples.px_qr (a_qid a)))) (a_rev a) (sites_of a))
+                                     | XErr _ => None end) (snd f)) files
+      = [[Some (7, 1, false, true)]; [Some (3, 1, true, true); Some (7, 1, false, true)]; [Some (7, 1, false, true)]]
+  | _, _, _ => False
+  end.
+Proof. split; [apply ProgramExamples.px_cl_ok|]. split; [exact (proj1 ProgramExamples.px_files_ok)|]. split; [exact (proj2 ProgramExamples.px_files_ok)|].
+  vm_compute. repeat split; reflexivity. Qed.
+Print Assumptions C01_program_records_valid.
